@@ -163,13 +163,17 @@ Proof.
   { intros x Hx. left. destruct A4 as [E|E]; congruence. }
   unfold do_prevote_locked.
   destruct (locked s1) as [lb|] eqn:El.
-  { apply sign_frame with (s := s); auto. intros _ _. exists lb. split; [|reflexivity]. now apply Hk. }
+  { apply (sign_frame _ _ _ _ s s1 J A1 A2 Hp (fun x Hx => Hk x (eq_trans (eq_sym El) Hx))).
+    intros _ _. exists lb. split; [|reflexivity]. now apply Hk. }
+  pose proof (fun x Hx => Hk x (eq_trans (eq_sym El) Hx)) as Hk'.
   destruct (pblock s1) as [pb|] eqn:Ep.
-  2:{ apply sign_frame with (s := s); auto. intros _ Nz. discriminate. }
+  2:{ apply (sign_frame _ _ _ _ s s1 J A1 A2 (fun x Hx => Hp x (eq_trans (eq_sym Ep) Hx)) Hk'). intros _ Nz. discriminate. }
+  pose proof (fun x Hx => Hp x (eq_trans (eq_sym Ep) Hx)) as Hp'.
   destruct (negb (valid (height s1) pb)) eqn:Ev.
-  { apply sign_frame with (s := s); auto. intros _ Nz. discriminate. }
+  { apply (sign_frame _ _ _ _ s s1 J A1 A2 Hp' Hk'). intros _ Nz. discriminate. }
   apply negb_false_iff in Ev. rewrite A1 in Ev.
-  apply sign_frame with (s := s); auto. intros _ _. exists pb. split; [right; split; [congruence|exact Ev]|reflexivity].
+  apply (sign_frame _ _ _ _ s s1 J A1 A2 Hp' Hk'). intros _ _. exists pb.
+  split; [right; split; [congruence|exact Ev]|reflexivity].
 Qed.
 
 Lemma enter_precommit_J h r s : Inv6 s -> Inv6 (enter_precommit valid me h r s).
